@@ -2434,11 +2434,13 @@ static void runCase(long long k, Rng& g)
 #if !VL_ASAN
    g_case = k;
 #endif
-   int sel = (int)(k % 16);
+   // 1 case in 64 is a focus history for a crash-prone function, 1 in 32 replays the C test program (half of them
+   // release the returned strings with free(), which AddressSanitizer answers with an abort on the unchanged tree)
+   int sel = (int)(k % 64);
    std::string desc;
-   if(sel == 7)
+   if(sel == 7 || sel == 39)
    {
-      int part = (int)((k / 16) % 4);
+      int part = (int)((k / 32) % 4);
       desc = "ctest part " + std::to_string(part);
       S.begin(k, desc);
       S.count("cases");
@@ -2448,11 +2450,11 @@ static void runCase(long long k, Rng& g)
    else
    {
       static const std::vector<std::string> modes = {"real", "real", "auto", "auto", "rational", "rational", "auto", "real"};
-      std::string mode = modes[(size_t)((k / 16 + k) % (long long)modes.size())];
-      if(sel == 5 || sel == 11)
+      std::string mode = modes[(size_t)((k / 64 + k) % (long long)modes.size())];
+      if(sel == 5)
       {
          const auto& R = riskyFns();
-         c.focus = (int)R[(size_t)((k / 16) % (long long)R.size())];
+         c.focus = (int)R[(size_t)((k / 64) % (long long)R.size())];
          c.maxCalls = g.range(8, 16);
          mode = g.chance(0.5) ? "auto" : "rational";
          desc = std::string("focus ") + FN[c.focus] + " mode=" + mode;
